@@ -129,6 +129,9 @@ class World:
                 return None
             if self.driver_mode == 'raise':
                 return c.raiser('OSError', 'dongle not found')()
+            if self.driver_mode == 'error-during-connect':
+                # the driver's own thread reports the failure while the application thread is still inside the driver's connect()
+                c.invoke((self.cf, '_link_error_cb'), 'dongle unplugged')
             ln = c.ext('link%d' % len(self.links), attrs={'needs_resending': needs_resending}, returns={'send_packet': self._on_send})
             self.links.append(ln)
             self.answered = 0
@@ -524,6 +527,20 @@ def no_driver(c):
     w.run_until_quiet()
     c.let('again', w.events())
     c.ensure('connects-afterwards', 'again == %r' % (FULL,))
+
+
+@contract('C02', 'open_link.link-error-during-connect', [CF + ':Crazyflie.open_link', CF + ':Crazyflie._link_error_cb'],
+          clause='connection_requested followed by connection_failed when the link fails before any packet arrives - also when the driver reports '
+                 'the failure from its own thread while open_link is still inside the driver\'s connect(); no exception escapes',
+          bounded='explicit schedule: the error report runs inside the driver look-up, before it returns the link')
+def link_error_during_connect(c):
+    w = World(c, 1)
+    w.driver_mode = 'error-during-connect'
+    c.call((w.cf, 'open_link'), URI)
+    c.ensure('no-exception-escapes', 'raised is None')
+    c.let('events', w.events())
+    c.ensure('requested-then-failed-once', "events[:2] == ('connection_requested', 'connection_failed') and events.count('connection_failed') == 1 "
+             "and 'disconnected_link_error' not in events and 'connected' not in events")
 
 
 @contract('C02', 'sync.open-close', [SCF + ':SyncCrazyflie.open_link', SCF + ':SyncCrazyflie.close_link', SCF + ':SyncCrazyflie._connected',
